@@ -100,7 +100,8 @@ def canon_json(js):
     for m in e["reported_errors"]:
         mm = re.match(r"0x([0-9A-F]+): \[E(\d+)\] body(\d+)", m)
         errs.append("%s.%s.%s" % (mm.group(1), mm.group(2), mm.group(3)))
-    sysid = {"ITS": 32}.get(r["system_id"], r["system_id"])
+    sysid = {"TPC": 3, "TRD": 4, "TOF": 5, "HMP": 6, "PHS": 7, "CPV": 8, "MCH": 10, "ZDC": 15, "TRG": 17, "EMC": 18, "TST": 19, "ITS": 32,
+             "FDD": 33, "FT0": 34, "FV0": 35, "MFT": 36, "MID": 37, "DCS": 38, "FOC": 39, "Unloaded": 255}.get(r["system_id"], r["system_id"])
     opt = lambda x: "-" if x is None else str(x)
     return "C:%s L:%s F:%s Y:%s O:%s,%s,%s,%s E:%s T:%d U:%s W:%s Z:%s X:0" % (
         ",".join(map(str, counters)), ",".join(map(str, r["links"])), ",".join(map(str, r["fee_id"])),
